@@ -1,9 +1,10 @@
 #!/bin/bash
 # tools/try_seed.sh <seed-dir-name> <PROP> [PROP...]  -- run quick checks against a scratch worktree with the seeded patch applied
 tag="$1"; shift
+patch=/verif/seeded/$tag/patch.diff; case "$tag" in */*) patch="$tag"; tag=$(basename $(dirname "$tag"))-$(basename "$tag" .diff);; esac
 wt=/tmp/ts/$tag; rm -rf "$wt"; mkdir -p /tmp/ts
 git -C /repo worktree add -q --detach "$wt" HEAD || exit 2
-git -C "$wt" apply /verif/seeded/$tag/patch.diff || { echo "patch does not apply"; git -C /repo worktree remove --force "$wt"; exit 2; }
+git -C "$wt" apply "$patch" || { echo "patch does not apply"; git -C /repo worktree remove --force "$wt"; exit 2; }
 for p in "$@"; do
   out=$(cd /verif && VERIF_REPO=$wt VERIF_HOME_EVIDENCE_SKIP=1 ./check $p --tier ${TIER:-quick} 2>&1); rc=$?
   echo "== seed $tag vs $p: exit $rc"; echo "$out" | grep -E "VIOLATION|HARNESS|^  " | head -4 | cut -c1-400
